@@ -192,13 +192,17 @@ Qed.
 
 (* ------------------------------------------------------------------ plus strand *)
 
-Lemma translate_unfold aa s start rc :
+Lemma translate_false_eq aa s start :
+  translate aa s start false = translate_pinned aa s start false.
+Proof. reflexivity. Qed.
+
+Lemma translate_pinned_unfold aa s start rc :
   0 <= start ->
-  translate aa s start rc =
+  translate_pinned aa s start rc =
   let seq := to_kmer_indices (trunc3 (skipn (Z.to_nat start) s)) in
   if rc then rev (convert minus_src (code_seq aa) seq) else convert plus_src (code_seq aa) seq.
 Proof.
-  intros H. unfold translate, str in *. rewrite (start_slice s start H). reflexivity.
+  intros H. unfold translate_pinned, str in *. rewrite (start_slice s start H). reflexivity.
 Qed.
 
 Lemma convert_plus aa dna :
@@ -225,9 +229,9 @@ Qed.
 
 Lemma translate_plus_spec_lemma id aa st s start :
   In (id, aa, st) new_codes -> canon_str s -> 0 <= start ->
-  translate aa s start false = translate_spec (ncbi_tbl id) (skipn (Z.to_nat start) s).
+  translate aa s start false = frame_plus (ncbi_tbl id) s (Z.to_nat start).
 Proof.
-  intros Hin Hs H0. rewrite translate_unfold by assumption. cbv zeta.
+  intros Hin Hs H0. rewrite translate_false_eq, translate_pinned_unfold by assumption. cbv zeta.
   rewrite convert_plus, chunks3_trunc3.
   apply (plus_table_spec id aa st); [assumption|]. apply canon_skipn; assumption.
 Qed.
@@ -286,69 +290,10 @@ Proof.
   apply (codon_ok_split id aa), (codon_facts id aa st); assumption.
 Qed.
 
-(** what the new translate(rc=True) computes, for every start: the translation of the reverse
-    complement of the truncated plus-strand window *)
-Lemma translate_minus_char_lemma id aa st s start :
-  In (id, aa, st) new_codes -> canon_str s -> 0 <= start ->
-  translate aa s start true =
-  translate_spec (ncbi_tbl id) (rc_spec (trunc3 (skipn (Z.to_nat start) s))).
-Proof.
-  intros Hin Hs H0. rewrite translate_unfold by assumption. cbv zeta.
-  rewrite convert_minus.
-  destruct (trunc3_split (skipn (Z.to_nat start) s)) as (tl & _ & _ & Hm).
-  apply (minus_table_spec id aa st); [assumption| |exact Hm].
-  apply canon_trunc3, canon_skipn, Hs.
-Qed.
-
 Lemma skipn_app_exact {A} (u v : list A) k : length u = k -> skipn k (u ++ v) = v.
 Proof.
   intros <-. rewrite skipn_app, skipn_all, Nat.sub_diag. reflexivity.
 Qed.
-
-Lemma translate_minus_spec_lemma id aa st s start :
-  In (id, aa, st) new_codes -> canon_str s -> 0 <= start ->
-  (zlen s - start) mod 3 = start ->
-  translate aa s start true = frame_minus (ncbi_tbl id) s (Z.to_nat start).
-Proof.
-  intros Hin Hs H0 Hg.
-  rewrite (translate_minus_char_lemma id aa st) by assumption.
-  unfold frame_minus, translate_spec. f_equal. rewrite !codons_chunks3.
-  set (k := Z.to_nat start). set (t := skipn k s).
-  destruct (trunc3_split t) as (tl & Ht & Htl & Hm).
-  destruct (le_lt_dec k (length s)) as [Hk|Hk].
-  - assert (Hlt : zlen t = zlen s - start).
-    { unfold t, zlen. rewrite skipn_length. unfold k. lia. }
-    assert (Es : rc_spec s = rc_spec t ++ rc_spec (firstn k s)).
-    { unfold t. rewrite <- rc_spec_app, firstn_skipn. reflexivity. }
-    assert (Et : rc_spec t = rc_spec tl ++ rc_spec (trunc3 t)).
-    { rewrite <- rc_spec_app, <- Ht. reflexivity. }
-    rewrite Es, Et, <- app_assoc.
-    rewrite skipn_app_exact.
-    + rewrite chunks3_app_short; [reflexivity|rewrite zlen_rc_spec; exact Hm|].
-      rewrite zlen_rc_spec. unfold zlen. rewrite firstn_length_le by exact Hk. unfold k. lia.
-    + apply Nat2Z.inj. fold (zlen (rc_spec tl)). rewrite zlen_rc_spec, Htl, Hlt, Hg. unfold k. lia.
-  - assert (Et : t = []) by (unfold t; apply skipn_all2; lia).
-    rewrite Et. rewrite skipn_all2.
-    + reflexivity.
-    + fold (rc_spec s). pose proof (zlen_rc_spec s) as E. unfold zlen in E. lia.
-Qed.
-
-(** the guard is needed: the unguarded statement is false of the faithful model *)
-Lemma translate_minus_refuted_lemma :
-  exists id aa st s start,
-    In (id, aa, st) new_codes /\ canon_str s /\ 0 <= start < 3 /\
-    translate aa s start true <> frame_minus (ncbi_tbl id) s (Z.to_nat start).
-Proof.
-  (* standard code; ATGAAACCCT, frame 0 *)
-  destruct new_codes as [|[[id aa] st] rest] eqn:E; [discriminate E|].
-  exists id, aa, st, [65; 84; 71; 65; 65; 65; 67; 67; 67; 84], 0.
-  split; [left; reflexivity|].
-  split; [unfold canon_str, canonical, bases; repeat constructor; simpl; tauto|].
-  split; [lia|].
-  injection E as E1 E2 E3 _. subst id aa st. vm_compute. discriminate.
-Qed.
-
-(* ------------------------------------------------------------------ the proposed correction *)
 
 Lemma slice_to_nonneg {A} (s : list A) stop :
   0 <= stop -> slice_to s stop = firstn (Z.to_nat stop) s.
@@ -358,26 +303,45 @@ Proof.
   unfold zlen in *. rewrite Nat2Z.id, !firstn_all2; auto; lia.
 Qed.
 
-Lemma translate_fixed_minus_lemma id aa st s start :
-  In (id, aa, st) new_codes -> canon_str s -> 0 <= start ->
-  translate_fixed aa s start true = frame_minus (ncbi_tbl id) s (Z.to_nat start).
+(** truncation to a multiple of three from the left, as the repaired minus strand does it *)
+Definition ltrunc3 {A} (l : list A) : list A :=
+  let diff := zlen l mod 3 in if diff =? 0 then l else slice_from l diff.
+
+Lemma translate_true aa s start :
+  translate aa s start true =
+  rev (convert minus_src (code_seq aa)
+         (to_kmer_indices (ltrunc3 (if start =? 0 then s else slice_to s (Z.max (zlen s - start) 0))))).
+Proof. reflexivity. Qed.
+
+Lemma ltrunc3_skipn {A} (l : list A) : ltrunc3 l = skipn (Z.to_nat (zlen l mod 3)) l.
 Proof.
-  intros Hin Hs H0. unfold translate_fixed, str in *.
+  unfold ltrunc3. cbv zeta. destruct (zlen l mod 3 =? 0) eqn:E.
+  - replace (zlen l mod 3) with 0 by lia. reflexivity.
+  - apply slice_from_nonneg. lia.
+Qed.
+
+Lemma right_cut {A} (s : list A) start :
+  0 <= start ->
+  (if start =? 0 then s else slice_to s (Z.max (zlen s - start) 0))
+  = firstn (length s - Z.to_nat start) s.
+Proof.
+  intros H0. destruct (start =? 0) eqn:E.
+  - replace (Z.to_nat start) with 0%nat by lia. rewrite Nat.sub_0_r, firstn_all. reflexivity.
+  - rewrite slice_to_nonneg by lia. f_equal. unfold zlen. lia.
+Qed.
+
+(** the repaired translate(rc=True): frame [start] of the reverse complement, EVERY length *)
+Lemma translate_minus_spec_lemma id aa st s start :
+  In (id, aa, st) new_codes -> canon_str s -> 0 <= start ->
+  translate aa s start true = frame_minus (ncbi_tbl id) s (Z.to_nat start).
+Proof.
+  intros Hin Hs H0. rewrite translate_true, right_cut by exact H0.
   set (k := Z.to_nat start).
   set (dna1 := firstn (length s - k) s).
-  assert (E1 : (if start =? 0 then s else slice_to s (Z.max (zlen s - start) 0)) = dna1).
-  { unfold dna1. destruct (start =? 0) eqn:E.
-    - replace k with 0%nat by (unfold k; lia). rewrite Nat.sub_0_r, firstn_all. reflexivity.
-    - rewrite slice_to_nonneg by lia. f_equal. unfold k, zlen. lia. }
-  rewrite E1. clear E1.
+  rewrite ltrunc3_skipn.
   set (d := zlen dna1 mod 3).
   set (dna2 := skipn (Z.to_nat d) dna1).
   assert (Hd : 0 <= d < 3) by (unfold d; lia).
-  assert (E2 : (if d =? 0 then dna1 else slice_from dna1 d) = dna2).
-  { unfold dna2. destruct (d =? 0) eqn:E.
-    - replace d with 0 by lia. reflexivity.
-    - apply slice_from_nonneg. lia. }
-  rewrite E2. clear E2.
   assert (Hdle : (Z.to_nat d <= length dna1)%nat) by (unfold d, zlen in *; lia).
   assert (Hm2 : zlen dna2 mod 3 = 0).
   { unfold dna2, zlen. rewrite skipn_length. unfold d, zlen in *. lia. }
@@ -403,7 +367,980 @@ Proof.
   rewrite zlen_rc_spec. unfold zlen. rewrite firstn_length_le by exact Hdle. lia.
 Qed.
 
-Lemma translate_fixed_plus_lemma id aa st s start :
+(* ------------------------------------------------------------------ the pre-repair code *)
+
+(** what translate(rc=True) computed before the repair, for every start: the translation of the
+    reverse complement of the window cut on the PLUS strand *)
+Lemma translate_pinned_minus_char_lemma id aa st s start :
   In (id, aa, st) new_codes -> canon_str s -> 0 <= start ->
-  translate_fixed aa s start false = frame_plus (ncbi_tbl id) s (Z.to_nat start).
-Proof. intros. unfold translate_fixed. apply (translate_plus_spec_lemma id aa st); assumption. Qed.
+  translate_pinned aa s start true =
+  translate_spec (ncbi_tbl id) (rc_spec (trunc3 (skipn (Z.to_nat start) s))).
+Proof.
+  intros Hin Hs H0. rewrite translate_pinned_unfold by assumption. cbv zeta.
+  rewrite convert_minus.
+  destruct (trunc3_split (skipn (Z.to_nat start) s)) as (tl & _ & _ & Hm).
+  apply (minus_table_spec id aa st); [assumption| |exact Hm].
+  apply canon_trunc3, canon_skipn, Hs.
+Qed.
+
+(** ... which is the requested frame only when the length cooperates *)
+Lemma translate_pinned_minus_guarded_lemma id aa st s start :
+  In (id, aa, st) new_codes -> canon_str s -> 0 <= start ->
+  (zlen s - start) mod 3 = start ->
+  translate_pinned aa s start true = frame_minus (ncbi_tbl id) s (Z.to_nat start).
+Proof.
+  intros Hin Hs H0 Hg.
+  rewrite (translate_pinned_minus_char_lemma id aa st) by assumption.
+  unfold frame_minus, translate_spec. f_equal. rewrite !codons_chunks3.
+  set (k := Z.to_nat start). set (t := skipn k s).
+  destruct (trunc3_split t) as (tl & Ht & Htl & Hm).
+  destruct (le_lt_dec k (length s)) as [Hk|Hk].
+  - assert (Hlt : zlen t = zlen s - start).
+    { unfold t, zlen. rewrite skipn_length. unfold k. lia. }
+    assert (Es : rc_spec s = rc_spec t ++ rc_spec (firstn k s)).
+    { unfold t. rewrite <- rc_spec_app, firstn_skipn. reflexivity. }
+    assert (Et : rc_spec t = rc_spec tl ++ rc_spec (trunc3 t)).
+    { rewrite <- rc_spec_app, <- Ht. reflexivity. }
+    rewrite Es, Et, <- app_assoc.
+    rewrite skipn_app_exact.
+    + rewrite chunks3_app_short; [reflexivity|rewrite zlen_rc_spec; exact Hm|].
+      rewrite zlen_rc_spec. unfold zlen. rewrite firstn_length_le by exact Hk. unfold k. lia.
+    + apply Nat2Z.inj. fold (zlen (rc_spec tl)). rewrite zlen_rc_spec, Htl, Hlt, Hg. unfold k. lia.
+  - assert (Et : t = []) by (unfold t; apply skipn_all2; lia).
+    rewrite Et. rewrite skipn_all2.
+    + reflexivity.
+    + fold (rc_spec s). pose proof (zlen_rc_spec s) as E. unfold zlen in E. lia.
+Qed.
+
+(** exactly which frame the pre-repair code returns: the reverse-strand reading of the codons
+    of PLUS frame [start], i.e. frame (len - start) mod 3 of the reverse complement *)
+Lemma translate_pinned_minus_frame_lemma id aa st s start :
+  In (id, aa, st) new_codes -> canon_str s -> 0 <= start < 3 -> start <= zlen s ->
+  translate_pinned aa s start true
+  = frame_minus (ncbi_tbl id) s (Z.to_nat ((zlen s - start) mod 3)).
+Proof.
+  intros Hin Hs H0 Hle.
+  rewrite (translate_pinned_minus_char_lemma id aa st) by (assumption || lia).
+  unfold frame_minus, translate_spec. f_equal. rewrite !codons_chunks3.
+  set (k := Z.to_nat start). set (t := skipn k s).
+  destruct (trunc3_split t) as (tl & Ht & Htl & Hm).
+  assert (Hk : (k <= length s)%nat) by (unfold k, zlen in *; lia).
+  assert (Hlt : zlen t = zlen s - start).
+  { unfold t, zlen. rewrite skipn_length. unfold k, zlen in *. lia. }
+  assert (Es : rc_spec s = rc_spec t ++ rc_spec (firstn k s)).
+  { unfold t. rewrite <- rc_spec_app, firstn_skipn. reflexivity. }
+  assert (Et : rc_spec t = rc_spec tl ++ rc_spec (trunc3 t)).
+  { rewrite <- rc_spec_app, <- Ht. reflexivity. }
+  rewrite Es, Et, <- app_assoc.
+  rewrite skipn_app_exact.
+  + rewrite chunks3_app_short; [reflexivity|rewrite zlen_rc_spec; exact Hm|].
+    rewrite zlen_rc_spec. unfold zlen. rewrite firstn_length_le by exact Hk. unfold k. lia.
+  + apply Nat2Z.inj. fold (zlen (rc_spec tl)). rewrite zlen_rc_spec, Htl, Hlt. lia.
+Qed.
+
+Fixpoint canon_strb (s : str) : bool :=
+  match s with [] => true | c :: r => canonicalb c && canon_strb r end.
+
+Lemma canonicalb_sound c : canonicalb c = true -> canonical c.
+Proof.
+  unfold canonicalb, canonical. intros H. apply existsb_exists in H.
+  destruct H as (x & Hx & E). apply Z.eqb_eq in E. subst x. exact Hx.
+Qed.
+
+Lemma canon_strb_sound s : canon_strb s = true -> canon_str s.
+Proof.
+  induction s as [|c r IH]; intros H; [constructor|].
+  cbn [canon_strb] in H. apply andb_prop in H. destruct H as [H1 H2].
+  constructor; [apply canonicalb_sound, H1|apply IH, H2].
+Qed.
+
+Lemma str_eqb_eq a b : str_eqb a b = true <-> a = b.
+Proof.
+  revert b. induction a as [|x a IH]; intros [|y b]; cbn [str_eqb]; split; intros H; try discriminate; auto.
+  - apply andb_prop in H. destruct H as [H1 H2]. apply Z.eqb_eq in H1. apply IH in H2. congruence.
+  - injection H as -> ->. rewrite Z.eqb_refl. apply IH. reflexivity.
+Qed.
+
+Lemma str_eqb_neq a b : str_eqb a b = false -> a <> b.
+Proof. intros H E. apply str_eqb_eq in E. congruence. Qed.
+
+Lemma hd_In {A} (d : A) (l : list A) : is_nil l = false -> In (hd d l) l.
+Proof. destruct l; [discriminate|left; reflexivity]. Qed.
+
+(** the guard is needed: the unguarded statement is false of the pre-repair code
+    (first code of the table, ATGAAACCCT, frame 0) *)
+Definition refute_seq : str := [65; 84; 71; 65; 65; 65; 67; 67; 67; 84].
+Definition refute_code : Z * list Z * list Z := hd (0, [], []) new_codes.
+Lemma refute_checks :
+  is_nil new_codes = false /\ canon_strb refute_seq = true /\
+  str_eqb (translate_pinned (snd (fst refute_code)) refute_seq 0 true)
+          (frame_minus (ncbi_tbl (fst (fst refute_code))) refute_seq 0) = false.
+Proof. vm_compute. repeat split. Qed.
+
+Lemma translate_pinned_minus_refuted_lemma :
+  exists id aa st s start,
+    In (id, aa, st) new_codes /\ canon_str s /\ 0 <= start < 3 /\
+    translate_pinned aa s start true <> frame_minus (ncbi_tbl id) s (Z.to_nat start).
+Proof.
+  destruct refute_checks as (H1 & H2 & H3).
+  exists (fst (fst refute_code)), (snd (fst refute_code)), (snd refute_code), refute_seq, 0.
+  split.
+  { replace (fst (fst refute_code), snd (fst refute_code), snd refute_code) with refute_code
+      by (destruct refute_code as [[? ?] ?]; reflexivity).
+    apply hd_In, H1. }
+  split; [apply canon_strb_sound, H2|].
+  split; [lia|]. apply str_eqb_neq, H3.
+Qed.
+
+(* ------------------------------------------------------------------ the tables *)
+
+Lemma old_eq_new_lemma : old_codes = new_codes.
+Proof. vm_compute. reflexivity. Qed.
+
+Lemma new_eq_ncbi_lemma : new_codes = ncbi_codes.
+Proof. vm_compute. reflexivity. Qed.
+
+Lemma old_bases_lemma : old_bases = bases /\ canon_new = bases.
+Proof. vm_compute. split; reflexivity. Qed.
+
+(** the Base1/Base2/Base3 header lines of the NCBI file enumerate product(TCAG, repeat=3) *)
+Definition ncbi_header_words : list (list Z) :=
+  map (fun p => [fst p; fst (snd p); snd (snd p)]) (combine ncbi_base1 (combine ncbi_base2 ncbi_base3)).
+Lemma ncbi_header_lemma : ncbi_header_words = product3 bases.
+Proof. vm_compute. reflexivity. Qed.
+
+Definition row_wf (e : Z * list Z * list Z) : bool :=
+  (zlen (snd (fst e)) =? 64) && (zlen (snd e) =? 64)
+  && forallb (fun c => negb (c =? ch_gap) && negb (c =? ch_X)) (snd (fst e))
+  && forallb (fun c => (c =? 77) || (c =? ch_gap) || (c =? ch_star)) (snd e).
+Fixpoint distinctb (l : list Z) : bool :=
+  match l with [] => true | x :: r => negb (memZ x r) && distinctb r end.
+Definition tables_wf (codes : list (Z * list Z * list Z)) : bool :=
+  forallb row_wf codes && distinctb (map (fun e => fst (fst e)) codes) && negb (is_nil codes).
+Lemma tables_wf_lemma : tables_wf ncbi_codes = true /\ tables_wf new_codes = true /\ tables_wf old_codes = true.
+Proof. vm_compute. repeat split. Qed.
+
+(** the 66-entry byte tables the GeneticCode objects really translate with (dumped from the
+    objects by the translator) are the converter tables of the model *)
+Definition conv_table (src : list Z) (aa : str) : list Z :=
+  map (fun i => trans_lookup src (code_seq aa) i i) (zrange 0 66).
+Definition tables_of (src : list Z) : list (Z * list Z) :=
+  map (fun e : Z * list Z * list Z => (fst (fst e), conv_table src (snd (fst e)))) new_codes.
+Lemma converter_tables_lemma :
+  tables_of plus_src = new_plus_tables /\ tables_of minus_src = new_minus_tables.
+Proof. vm_compute. split; reflexivity. Qed.
+
+(** every codon of every code, any letter case, U for T: both __getitem__ = the NCBI column;
+    stop codons = the columns holding "*" *)
+Lemma getitem_spec_lemma v id aa st a b c :
+  In (id, aa, st) new_codes -> canonical a -> canonical b -> canonical c ->
+  getitem v aa [a; b; c] = Ok (spec_lookup (ncbi_tbl id) [a; b; c]).
+Proof.
+  intros Hin Ha Hb Hc.
+  destruct (codon_ok_split id aa [a; b; c] (codon_facts id aa st a b c Hin Ha Hb Hc)) as (_ & _ & Ho & Hn & _).
+  destruct v; assumption.
+Qed.
+
+Lemma is_stop_spec_lemma v id aa st a b c :
+  In (id, aa, st) new_codes -> canonical a -> canonical b -> canonical c ->
+  is_stop v aa [a; b; c] = Ok (spec_lookup (ncbi_tbl id) [a; b; c] =? star).
+Proof.
+  intros. unfold is_stop. rewrite (getitem_spec_lemma v id aa st) by assumption. reflexivity.
+Qed.
+
+(* ------------------------------------------------------------------ old GeneticCode.translate *)
+
+Lemma mapM_ok {A B} (f : A -> res B) (g : A -> B) l :
+  (forall x, In x l -> f x = Ok (g x)) -> mapM f l = Ok (map g l).
+Proof.
+  induction l as [|a r IH]; intros H; [reflexivity|].
+  cbn [mapM map]. rewrite (H a) by (left; reflexivity). cbn [bind].
+  rewrite IH by (intros x Hx; apply H; right; exact Hx). reflexivity.
+Qed.
+
+Lemma translate_old_spec_lemma id aa st s start :
+  In (id, aa, st) old_codes -> canon_str s -> 0 <= start -> (s = [] \/ start < zlen s) ->
+  translate_old aa s start = Ok (frame_plus (ncbi_tbl id) s (Z.to_nat start)).
+Proof.
+  intros Hin Hs H0 Hlen. rewrite old_eq_new_lemma in Hin.
+  unfold translate_old, frame_plus. destruct (start <? 0) eqn:E; [lia|].
+  destruct s as [|x r]; [rewrite skipn_nil; reflexivity|].
+  destruct Hlen as [Hlen|Hlen]; [discriminate|].
+  destruct (start + 1 >? zlen (x :: r)) eqn:E2; [lia|].
+  unfold translate_spec. rewrite codons_chunks3.
+  apply mapM_ok. intros w Hw.
+  destruct (canon_chunk _ w (canon_skipn _ (Z.to_nat start) Hs) Hw) as (a & b & c & -> & Ha & Hb & Hc).
+  apply (getitem_spec_lemma Old id aa st); assumption.
+Qed.
+
+(* ------------------------------------------------------------------ complement / reverse complement *)
+
+Lemma assocZ_In {A} k (l : list (Z * A)) v : assocZ k l = Some v -> In (k, v) l.
+Proof.
+  induction l as [|[k' v'] r IH]; cbn [assocZ]; [discriminate|].
+  destruct (k' =? k) eqn:E; intros H.
+  - injection H as ->. apply Z.eqb_eq in E. subst k'. left. reflexivity.
+  - right. apply IH, H.
+Qed.
+
+Definition comp_invol_check (tbl : list (Z * Z)) : bool :=
+  forallb (fun kv => comp_char tbl (snd kv) =? fst kv) tbl.
+
+Lemma comp_involutive_gen tbl :
+  comp_invol_check tbl = true -> forall c, comp_char tbl (comp_char tbl c) = c.
+Proof.
+  intros H c. unfold comp_invol_check in H. rewrite forallb_forall in H.
+  unfold comp_char at 2. destruct (assocZ c tbl) as [d|] eqn:E.
+  - apply assocZ_In in E. specialize (H _ E). cbn [fst snd] in H. lia.
+  - unfold comp_char. rewrite E. reflexivity.
+Qed.
+
+Definition all_impl_moltype : list (impl * moltype) := [(Old, DNA); (Old, RNA); (New, DNA); (New, RNA)].
+Lemma In_all_impl_moltype v m : In (v, m) all_impl_moltype.
+Proof. destruct v, m; cbn; tauto. Qed.
+
+Lemma comp_tables_checked :
+  forallb (fun vm => comp_invol_check (comp_table (fst vm) (snd vm))) all_impl_moltype = true.
+Proof. vm_compute. reflexivity. Qed.
+
+Lemma comp_char_involutive v m c :
+  comp_char (comp_table v m) (comp_char (comp_table v m) c) = c.
+Proof.
+  apply comp_involutive_gen.
+  pose proof comp_tables_checked as H. rewrite forallb_forall in H.
+  apply (H (v, m)), In_all_impl_moltype.
+Qed.
+
+Lemma comp_char_involutive_new c : comp_char comp_dna (comp_char comp_dna c) = c.
+Proof. exact (comp_char_involutive New DNA c). Qed.
+Lemma comp_char_involutive_new_rna c : comp_char comp_rna (comp_char comp_rna c) = c.
+Proof. exact (comp_char_involutive New RNA c). Qed.
+
+Lemma complement_pure_involutive v m s :
+  complement_pure (comp_table v m) (complement_pure (comp_table v m) s) = s.
+Proof.
+  unfold complement_pure. rewrite map_map. rewrite <- (map_id s) at 2.
+  apply map_ext. intros c. apply comp_char_involutive.
+Qed.
+
+Lemma rc_pure_involutive v m s : rc_pure (comp_table v m) (rc_pure (comp_table v m) s) = s.
+Proof.
+  unfold rc_pure, complement_pure. rewrite map_rev, rev_involutive, map_map.
+  rewrite <- (map_id s) at 2. apply map_ext. intros c. apply comp_char_involutive.
+Qed.
+
+(** the validating entry points: the complement of a valid sequence is valid *)
+Definition comp_closed_check (m : moltype) : bool :=
+  forallb (fun c => memZ (comp_char (comp_table New m) c) (dga m)) (dga m).
+Lemma comp_closed_checked : comp_closed_check DNA = true /\ comp_closed_check RNA = true.
+Proof. vm_compute. split; reflexivity. Qed.
+
+Lemma memZ_In c l : memZ c l = true <-> In c l.
+Proof.
+  unfold memZ. rewrite existsb_exists. split.
+  - intros (x & Hx & E). apply Z.eqb_eq in E. subst x. exact Hx.
+  - intros H. exists c. split; [exact H|apply Z.eqb_refl].
+Qed.
+
+Lemma valid_complement m s :
+  forallb (fun c => memZ c (dga m)) s = true ->
+  forallb (fun c => memZ c (dga m)) (complement_pure (comp_table New m) s) = true.
+Proof.
+  intros H. rewrite forallb_forall in *. intros x Hx. unfold complement_pure in Hx.
+  apply in_map_iff in Hx. destruct Hx as (c & <- & Hc).
+  assert (Hm : comp_closed_check m = true) by (destruct m; apply comp_closed_checked).
+  unfold comp_closed_check in Hm. rewrite forallb_forall in Hm.
+  apply Hm. apply memZ_In. apply H. exact Hc.
+Qed.
+
+Lemma forallb_rev {A} (f : A -> bool) l : forallb f (rev l) = forallb f l.
+Proof.
+  induction l as [|a r IH]; [reflexivity|].
+  cbn [rev forallb]. rewrite forallb_app, IH. cbn [forallb]. rewrite andb_true_r. apply andb_comm.
+Qed.
+
+Lemma Ok_inj {A} (a b : A) : @Ok A a = Ok b -> a = b.
+Proof. intros H. injection H as H. exact H. Qed.
+
+Lemma complement_involutive_lemma v m s r : complement v m s = Ok r -> complement v m r = Ok s.
+Proof.
+  destruct v; cbn [complement].
+  - intros H. apply Ok_inj in H. subst r. rewrite complement_pure_involutive. reflexivity.
+  - destruct (forallb (fun c => memZ c (dga m)) s) eqn:E; [|discriminate].
+    intros H. apply Ok_inj in H. subst r. rewrite (valid_complement m s E), complement_pure_involutive. reflexivity.
+Qed.
+
+Lemma rc_involutive_lemma v m s r : rc v m s = Ok r -> rc v m r = Ok s.
+Proof.
+  unfold rc. destruct (complement v m s) as [c|e] eqn:E; cbn [bind]; [|discriminate].
+  intros H. apply Ok_inj in H. subst r.
+  assert (Hc : complement v m (rev c) = Ok (rev s)).
+  { destruct v; cbn [complement] in *.
+    - apply Ok_inj in E. subst c. unfold complement_pure. rewrite <- map_rev.
+      change (map (comp_char (comp_table Old m)) (map (comp_char (comp_table Old m)) (rev s)))
+        with (complement_pure (comp_table Old m) (complement_pure (comp_table Old m) (rev s))).
+      rewrite complement_pure_involutive. reflexivity.
+    - destruct (forallb (fun c => memZ c (dga m)) s) eqn:E1; [|discriminate].
+      apply Ok_inj in E. subst c. rewrite forallb_rev, (valid_complement m s E1).
+      unfold complement_pure. rewrite <- map_rev.
+      change (map (comp_char (comp_table New m)) (map (comp_char (comp_table New m)) (rev s)))
+        with (complement_pure (comp_table New m) (complement_pure (comp_table New m) (rev s))).
+      rewrite complement_pure_involutive. reflexivity. }
+  rewrite Hc. cbn [bind]. rewrite rev_involutive. reflexivity.
+Qed.
+
+(** on the bases the tables are Watson-Crick *)
+Definition comp_base (m : moltype) : Z -> Z := match m with DNA => comp_base_dna | RNA => comp_base_rna end.
+Definition alpha_spec (m : moltype) : list Z := match m with DNA => bases | RNA => map t2u bases end.
+Lemma comp_on_bases_checked :
+  forallb (fun vm => forallb (fun c => comp_char (comp_table (fst vm) (snd vm)) c =? comp_base (snd vm) c)
+                             (alpha_spec (snd vm))) all_impl_moltype = true.
+Proof. vm_compute. reflexivity. Qed.
+
+Lemma comp_on_bases v m c : In c (alpha_spec m) -> comp_char (comp_table v m) c = comp_base m c.
+Proof.
+  intros Hc. pose proof comp_on_bases_checked as H. rewrite forallb_forall in H.
+  specialize (H (v, m) (In_all_impl_moltype v m)). cbn [fst snd] in H.
+  rewrite forallb_forall in H. specialize (H c Hc). lia.
+Qed.
+
+Lemma rc_pure_canon v s : canon_str s -> rc_pure (comp_table v DNA) s = rc_spec s.
+Proof.
+  intros Hs. unfold rc_pure, complement_pure, rc_spec. f_equal.
+  apply map_ext_in. intros c Hc. unfold canon_str in Hs. rewrite Forall_forall in Hs.
+  apply (comp_on_bases v DNA c). apply Hs, Hc.
+Qed.
+
+(* ------------------------------------------------------------------ entry points agree *)
+
+(** translate(s, start, rc=True) is the translation of the reverse-complemented string *)
+Lemma translate_rc_is_translate_of_rc_lemma id aa st s start :
+  In (id, aa, st) new_codes -> canon_str s -> 0 <= start ->
+  translate aa s start true = translate aa (rc_pure dna_comp_new s) start false.
+Proof.
+  intros Hin Hs H0.
+  rewrite (translate_minus_spec_lemma id aa st) by assumption.
+  change dna_comp_new with (comp_table New DNA). rewrite rc_pure_canon by exact Hs.
+  rewrite (translate_plus_spec_lemma id aa st) by (auto using canon_rc). reflexivity.
+Qed.
+
+Lemma old_new_agree_plus_lemma id aa st s start :
+  In (id, aa, st) new_codes -> canon_str s -> 0 <= start -> (s = [] \/ start < zlen s) ->
+  translate_old aa s start = Ok (translate aa s start false).
+Proof.
+  intros Hin Hs H0 Hl.
+  rewrite (translate_plus_spec_lemma id aa st) by assumption.
+  assert (Hin' : In (id, aa, st) old_codes) by (rewrite old_eq_new_lemma; exact Hin).
+  apply (translate_old_spec_lemma id aa st); assumption.
+Qed.
+
+Lemma old_new_agree_minus_lemma id aa st s start :
+  In (id, aa, st) new_codes -> canon_str s -> 0 <= start -> (s = [] \/ start < zlen s) ->
+  translate_old aa (rc_pure dna_comp_old s) start = Ok (translate aa s start true).
+Proof.
+  intros Hin Hs H0 Hl.
+  rewrite (translate_minus_spec_lemma id aa st) by assumption.
+  change dna_comp_old with (comp_table Old DNA). rewrite rc_pure_canon by exact Hs.
+  assert (Hin' : In (id, aa, st) old_codes) by (rewrite old_eq_new_lemma; exact Hin).
+  assert (Hl' : rc_spec s = [] \/ start < zlen (rc_spec s)).
+  { destruct Hl as [->|Hl]; [left; reflexivity|right; rewrite zlen_rc_spec; exact Hl]. }
+  apply (translate_old_spec_lemma id aa st); [exact Hin'|apply canon_rc, Hs|exact H0|exact Hl'].
+Qed.
+
+Lemma sixframes_spec_lemma id aa st s :
+  In (id, aa, st) new_codes -> canon_str s ->
+  map snd (sixframes aa s) = six_frames_spec (ncbi_tbl id) s /\
+  map fst (sixframes aa s) = [(false, 0); (false, 1); (false, 2); (true, 0); (true, 1); (true, 2)].
+Proof.
+  intros Hin Hs. split; [|reflexivity].
+  unfold sixframes, six_frames_spec. cbn [flat_map map app snd].
+  rewrite !(translate_plus_spec_lemma id aa st), !(translate_minus_spec_lemma id aa st) by (assumption || lia).
+  reflexivity.
+Qed.
+
+Lemma sixframes_old_spec_lemma id aa st s :
+  In (id, aa, st) new_codes -> canon_str s -> 2 < zlen s ->
+  sixframes_old aa DNA s = Ok (six_frames_spec (ncbi_tbl id) s).
+Proof.
+  intros Hin Hs Hl. unfold sixframes_old. rewrite rc_pure_canon by exact Hs.
+  assert (Hin' : In (id, aa, st) old_codes) by (rewrite old_eq_new_lemma; exact Hin).
+  cbn [mapM].
+  rewrite !(translate_old_spec_lemma id aa st) by (auto using canon_rc; try lia; right; rewrite ?zlen_rc_spec; lia).
+  reflexivity.
+Qed.
+
+(* ------------------------------------------------------------------ gaps and ambiguity symbols in a codon *)
+
+(** symbols of the codon alphabet's monomers other than the bases: "-" and "?"; any other byte
+    (an IUPAC ambiguity letter, N, ...) keeps its code point >= 6 under to_indices.  For every
+    code: a codon of bases is looked up; otherwise, if its largest monomer index is the gap's
+    (some "-", no "?" or other symbol) it translates to "-", otherwise to "X". *)
+Definition aa_plus_any (aa : str) (w : str) : Z := plus_aa aa w.
+Definition dga_words : list str := product3 dna_dga_new.
+Definition expected_incomplete (w : str) : Z :=
+  if forallb canonicalb w then 0
+  else if forallb (fun c => canonicalb c || (c =? ch_gap)) w then ch_gap else ch_X.
+Definition incomplete_ok_code (e : Z * list Z * list Z) : bool :=
+  forallb (fun w => let x := expected_incomplete w in
+                    (x =? 0) || ((plus_aa (snd (fst e)) w =? x) && (minus_aa (snd (fst e)) w =? x))) dga_words.
+Lemma incomplete_checked : forallb incomplete_ok_code new_codes = true.
+Proof. vm_compute. reflexivity. Qed.
+
+Lemma incomplete_codon_lemma id aa st a b c :
+  In (id, aa, st) new_codes -> In a dna_dga_new -> In b dna_dga_new -> In c dna_dga_new ->
+  forallb canonicalb [a; b; c] = false ->
+  plus_aa aa [a; b; c] = expected_incomplete [a; b; c] /\ minus_aa aa [a; b; c] = expected_incomplete [a; b; c].
+Proof.
+  intros Hin Ha Hb Hc Hn. pose proof incomplete_checked as H. rewrite forallb_forall in H.
+  specialize (H _ Hin). unfold incomplete_ok_code in H. cbn [fst snd] in H. rewrite forallb_forall in H.
+  specialize (H [a; b; c] (In_product3 _ a b c Ha Hb Hc)). cbv zeta in H.
+  assert (E : expected_incomplete [a; b; c] <> 0).
+  { unfold expected_incomplete. rewrite Hn.
+    destruct (forallb (fun c0 => canonicalb c0 || (c0 =? ch_gap)) [a; b; c]); unfold ch_gap, ch_X; lia. }
+  lia.
+Qed.
+
+(* ------------------------------------------------------------------ IUPAC symbols as sets *)
+
+Definition iupac_of (m : moltype) : list (Z * list Z) := match m with DNA => iupac_dna | RNA => iupac_rna end.
+
+(** complement maps each IUPAC symbol to the symbol of the complemented base set *)
+Definition iupac_comp_check (vm : impl * moltype) : bool :=
+  let '(v, m) := vm in
+  forallb (fun kv : Z * list Z =>
+             match assocZ (comp_char (comp_table v m) (fst kv)) (iupac_of m) with
+             | Some set' => str_eqb set' (as_set (map (comp_base m) (snd kv)))
+             | None => false
+             end) (iupac_of m)
+  && (comp_char (comp_table v m) ch_gap =? ch_gap) && (comp_char (comp_table v m) ch_miss =? ch_miss).
+Lemma iupac_comp_checked : forallb iupac_comp_check all_impl_moltype = true.
+Proof. vm_compute. reflexivity. Qed.
+
+Lemma complement_is_set_complement_lemma v m x set :
+  In (x, set) (iupac_of m) ->
+  assocZ (comp_char (comp_table v m) x) (iupac_of m) = Some (as_set (map (comp_base m) set)).
+Proof.
+  intros Hin. pose proof iupac_comp_checked as H. rewrite forallb_forall in H.
+  specialize (H (v, m) (In_all_impl_moltype v m)). cbn [iupac_comp_check] in H.
+  apply andb_prop in H. destruct H as [H _]. apply andb_prop in H. destruct H as [H _].
+  rewrite forallb_forall in H. specialize (H _ Hin). cbn [fst snd] in H.
+  destruct (assocZ (comp_char (comp_table v m) x) (iupac_of m)) as [s'|]; [|discriminate].
+  apply str_eqb_eq in H. congruence.
+Qed.
+
+Lemma complement_gap_missing_lemma v m :
+  comp_char (comp_table v m) ch_gap = ch_gap /\ comp_char (comp_table v m) ch_miss = ch_miss.
+Proof.
+  pose proof iupac_comp_checked as H. rewrite forallb_forall in H.
+  specialize (H (v, m) (In_all_impl_moltype v m)). cbn [iupac_comp_check] in H.
+  apply andb_prop in H. destruct H as [H H2]. apply andb_prop in H. destruct H as [_ H1]. lia.
+Qed.
+
+(** the ambiguity dictionaries of the code ARE the IUPAC table (as sets), both directions *)
+Definition ambig_src (v : impl) (m : moltype) : list (Z * list Z) :=
+  match v, m with
+  | Old, DNA => dna_ambig_old | Old, RNA => rna_ambig_old
+  | New, DNA => dna_ambig_new | New, RNA => rna_ambig_new
+  end.
+Definition ambig_check (vm : impl * moltype) : bool :=
+  let '(v, m) := vm in
+  forallb (fun kv : Z * list Z =>
+             (fst kv =? ch_gap) || (fst kv =? ch_miss) ||
+             match assocZ (fst kv) (iupac_of m) with
+             | Some set => str_eqb set (as_set (snd kv)) | None => false end) (ambig_src v m)
+  && forallb (fun kv : Z * list Z =>
+                (zlen (snd kv) =? 1) ||
+                match assocZ (fst kv) (ambig_src v m) with
+                | Some set => str_eqb (as_set set) (snd kv) | None => false end) (iupac_of m).
+Lemma ambig_checked : forallb ambig_check all_impl_moltype = true.
+Proof. vm_compute. reflexivity. Qed.
+
+(** resolving and re-encoding are mutual inverses *)
+Definition singletons (l : list Z) : list str := map (fun c => [c]) l.
+Definition degenerate_from_seq (v : impl) (m : moltype) (symbols : list Z) : res Z :=
+  match v with Old => degenerate_from_seq_old m symbols | New => degenerate_from_seq_new m symbols end.
+Definition res_strs_eqb (r : res (list str)) (l : list str) : bool :=
+  match r with
+  | Ok l' => (Nat.eqb (length l') (length l)) && forallb (fun p => str_eqb (fst p) (snd p)) (combine l' l)
+  | Err _ => false
+  end.
+Definition resolve_encode_check (vm : impl * moltype) : bool :=
+  let '(v, m) := vm in
+  forallb (fun kv : Z * list Z =>
+             res_strs_eqb (resolve_ambiguity v m [fst kv]) (singletons (snd kv))
+             && res_is (degenerate_from_seq v m (snd kv)) (fst kv)
+             && res_is (degenerate_from_seq v m (rev (snd kv))) (fst kv)) (iupac_of m).
+Lemma resolve_encode_checked : forallb resolve_encode_check all_impl_moltype = true.
+Proof. vm_compute. reflexivity. Qed.
+
+Lemma res_strs_eqb_sound r l : res_strs_eqb r l = true -> r = Ok l.
+Proof.
+  destruct r as [l'|]; cbn [res_strs_eqb]; [|discriminate].
+  intros H. apply andb_prop in H. destruct H as [H1 H2]. apply Nat.eqb_eq in H1. f_equal.
+  revert l H1 H2. induction l' as [|a r IH]; intros [|b l]; cbn; try discriminate; auto.
+  intros H1 H2. injection H1 as H1. apply andb_prop in H2. destruct H2 as [Ha Hr].
+  apply str_eqb_eq in Ha. subst b. f_equal. apply IH; assumption.
+Qed.
+
+Lemma res_is_sound r t : res_is r t = true -> r = Ok t.
+Proof. destruct r; cbn; [|discriminate]. intros H. f_equal. lia. Qed.
+
+Lemma resolve_encode_lemma v m x set :
+  In (x, set) (iupac_of m) ->
+  resolve_ambiguity v m [x] = Ok (singletons set) /\
+  degenerate_from_seq v m set = Ok x /\ degenerate_from_seq v m (rev set) = Ok x.
+Proof.
+  intros Hin. pose proof resolve_encode_checked as H. rewrite forallb_forall in H.
+  specialize (H (v, m) (In_all_impl_moltype v m)). cbn [resolve_encode_check] in H.
+  rewrite forallb_forall in H. specialize (H _ Hin). cbn [fst snd] in H.
+  apply andb_prop in H. destruct H as [H H3]. apply andb_prop in H. destruct H as [H1 H2].
+  auto using res_strs_eqb_sound, res_is_sound.
+Qed.
+
+(** every non-empty set of bases has an IUPAC symbol: the table's sets are ALL 15 of them *)
+Fixpoint sublists (l : list Z) : list (list Z) :=
+  match l with [] => [[]] | x :: r => map (cons x) (sublists r) ++ sublists r end.
+Definition base_sets (m : moltype) : list (list Z) :=
+  filter (fun s => negb (is_nil s)) (sublists (as_set (alpha_spec m))).
+Definition all_sets_check (m : moltype) : bool :=
+  forallb (fun s => existsb (fun kv : Z * list Z => str_eqb (snd kv) s) (iupac_of m)) (base_sets m)
+  && Nat.eqb (length (base_sets m)) 15 && Nat.eqb (length (iupac_of m)) 15.
+Lemma all_sets_checked : all_sets_check DNA = true /\ all_sets_check RNA = true.
+Proof. vm_compute. split; reflexivity. Qed.
+
+Lemma every_base_set_has_symbol_lemma v m set :
+  In set (base_sets m) ->
+  exists x, degenerate_from_seq v m set = Ok x /\ resolve_ambiguity v m [x] = Ok (singletons set).
+Proof.
+  intros Hin.
+  assert (H : all_sets_check m = true) by (destruct m; apply all_sets_checked).
+  unfold all_sets_check in H. apply andb_prop in H. destruct H as [H _]. apply andb_prop in H. destruct H as [H _].
+  rewrite forallb_forall in H. specialize (H _ Hin). apply existsb_exists in H.
+  destruct H as ([x set'] & Hx & E). cbn [snd] in E. apply str_eqb_eq in E. subst set'.
+  exists x. destruct (resolve_encode_lemma v m x set Hx) as (H1 & H2 & _). auto.
+Qed.
+
+(* ------------------------------------------------------------------ stop codons: trimmed, kept or rejected *)
+
+Definition ropt {A} (r : res A) : option A := match r with Ok a => Some a | Err _ => None end.
+
+Lemma canonical_not_gap c : canonical c -> (c =? ch_gap) = false.
+Proof. unfold canonical, bases. simpl. intros [<-|[<-|[<-|[<-|[]]]]]; reflexivity. Qed.
+
+Lemma degap_canon s : canon_str s -> degap s = s.
+Proof.
+  induction 1 as [|c r Hc Hr IH]; [reflexivity|].
+  cbn [degap filter]. rewrite (canonical_not_gap c Hc). cbn [negb]. f_equal. exact IH.
+Qed.
+
+Lemma has_gap_canon s : canon_str s -> has_gap s = false.
+Proof.
+  induction 1 as [|c r Hc Hr IH]; [reflexivity|].
+  unfold has_gap, memZ in *. cbn [existsb]. rewrite IH, orb_false_r.
+  rewrite Z.eqb_sym. apply canonical_not_gap, Hc.
+Qed.
+
+Lemma split_last3 {A} (s : list A) :
+  zlen s mod 3 = 0 -> s <> [] -> exists u a b c, s = u ++ [a; b; c] /\ zlen u mod 3 = 0.
+Proof.
+  induction s using list_ind3; intros Hm Hn.
+  - congruence.
+  - exfalso. rewrite zlen_cons, zlen_nil in Hm. discriminate Hm.
+  - exfalso. rewrite !zlen_cons, zlen_nil in Hm. discriminate Hm.
+  - destruct s as [|x r].
+    + exists [], a, b, c. split; reflexivity.
+    + assert (Hm' : zlen (x :: r) mod 3 = 0) by (rewrite !zlen_cons in *; lia).
+      destruct (IHs Hm' ltac:(discriminate)) as (u & p & q & t & E & Hu).
+      exists (a :: b :: c :: u), p, q, t. rewrite E. split; [reflexivity|].
+      rewrite !zlen_cons. lia.
+Qed.
+
+Lemma last3_app (u : str) a b c : last3 (u ++ [a; b; c]) = [a; b; c].
+Proof.
+  unfold last3, slice_from. rewrite zlen_app. change (zlen [a; b; c]) with 3.
+  pose proof (zlen_nonneg u). destruct (-3 <? 0) eqn:E; [|lia].
+  replace (Z.to_nat (Z.max 0 (-3 + (zlen u + 3)))) with (length u) by (unfold zlen in *; lia).
+  apply skipn_app_exact. reflexivity.
+Qed.
+
+Lemma slice_to_m3_app {A} (u : list A) a b c : slice_to (u ++ [a; b; c]) (-3) = u.
+Proof.
+  unfold slice_to. rewrite zlen_app. change (zlen [a; b; c]) with 3.
+  pose proof (zlen_nonneg u). destruct (-3 <? 0) eqn:E; [|lia].
+  replace (Z.to_nat (Z.max 0 (-3 + (zlen u + 3)))) with (length u + 0)%nat by (unfold zlen in *; lia).
+  rewrite firstn_app_2. cbn [firstn]. apply app_nil_r.
+Qed.
+
+Lemma translate_spec_snoc tbl u a b c :
+  zlen u mod 3 = 0 ->
+  translate_spec tbl (u ++ [a; b; c]) = translate_spec tbl u ++ [spec_lookup tbl [a; b; c]].
+Proof.
+  intros H. unfold translate_spec. rewrite !codons_chunks3, chunks3_app by exact H.
+  rewrite map_app. reflexivity.
+Qed.
+
+Lemma ends_with_stop_snoc p x : ends_with_stop (p ++ [x]) = (x =? star).
+Proof. unfold ends_with_stop. rewrite rev_app_distr. reflexivity. Qed.
+
+(** the translation of a canonical sequence never contains "-" or "X" *)
+Lemma translate_spec_clean id aa st s :
+  In (id, aa, st) new_codes -> canon_str s ->
+  has_char ch_gap (translate_spec (ncbi_tbl id) s) = false /\
+  has_char ch_X (translate_spec (ncbi_tbl id) s) = false.
+Proof.
+  intros Hin Hs.
+  assert (H : forall x, In x (translate_spec (ncbi_tbl id) s) -> x <> ch_gap /\ x <> ch_X).
+  { intros x Hx. unfold translate_spec in Hx. rewrite codons_chunks3 in Hx.
+    apply in_map_iff in Hx. destruct Hx as (w & <- & Hw).
+    destruct (canon_chunk s w Hs Hw) as (a & b & c & -> & Ha & Hb & Hc).
+    destruct (codon_ok_split id aa _ (codon_facts id aa st a b c Hin Ha Hb Hc)) as (_ & _ & _ & _ & H5 & H6).
+    split; assumption. }
+  unfold has_char, memZ. split.
+  - destruct (existsb (Z.eqb ch_gap) _) eqn:E; [|reflexivity].
+    apply existsb_exists in E. destruct E as (x & Hx & E). apply Z.eqb_eq in E. subst x.
+    destruct (H _ Hx) as [H1 _]. congruence.
+  - destruct (existsb (Z.eqb ch_X) _) eqn:E; [|reflexivity].
+    apply existsb_exists in E. destruct E as (x & Hx & E). apply Z.eqb_eq in E. subst x.
+    destruct (H _ Hx) as [_ H2]. congruence.
+Qed.
+
+Lemma canon_app_inv u v : canon_str (u ++ v) -> canon_str u /\ canon_str v.
+Proof. unfold canon_str. apply Forall_app. Qed.
+
+(** what trim_stop_codon (repaired: an empty sequence has no terminal stop) does to a canonical
+    sequence: the sequence itself, the sequence without its last codon, or a rejection *)
+Definition trim_spec (tbl : list Z) (strict : bool) (s : list Z) : option (list Z) :=
+  if zlen s mod 3 =? 0 then
+    Some (if ends_with_stop (translate_spec tbl s) then firstn (length s - 3) s else s)
+  else if strict then None else Some s.
+
+Lemma trim_stop_codon_canon v id aa st s strict :
+  In (id, aa, st) new_codes -> canon_str s ->
+  ropt (trim_stop_codon true v aa s strict) = trim_spec (ncbi_tbl id) strict s
+  /\ (forall e, trim_stop_codon true v aa s strict = Err e -> e = E_Alpha).
+Proof.
+  intros Hin Hs. unfold trim_stop_codon, has_terminal_stop, trim_spec. cbv zeta.
+  rewrite (degap_canon s Hs), (has_gap_canon s Hs). cbn [negb andb].
+  destruct s as [|x r] eqn:Es.
+  { cbn. split; [reflexivity|discriminate]. }
+  rewrite <- Es in *. assert (Hne : s <> []) by (rewrite Es; discriminate).
+  replace (is_nil s) with false by (rewrite Es; reflexivity).
+  destruct (zlen s mod 3 =? 0) eqn:Em.
+  - destruct (split_last3 s ltac:(lia) Hne) as (u & a & b & c & E & Hu).
+    rewrite E in Hs. destruct (canon_app_inv _ _ Hs) as [Hcu Hcw].
+    inversion Hcw as [|? ? Ha Hcw1]; subst. inversion Hcw1 as [|? ? Hb Hcw2]; subst.
+    inversion Hcw2 as [|? ? Hc _]; subst.
+    rewrite E, last3_app, (is_stop_spec_lemma v id aa st a b c Hin Ha Hb Hc). cbn [bind].
+    rewrite translate_spec_snoc by exact Hu. rewrite ends_with_stop_snoc.
+    destruct (spec_lookup (ncbi_tbl id) [a; b; c] =? star); cbn [negb ropt].
+    + rewrite slice_to_m3_app. rewrite app_length. cbn [length].
+      replace (length u + 3 - 3)%nat with (length u + 0)%nat by lia.
+      rewrite firstn_app_2. cbn [firstn]. rewrite app_nil_r. split; [reflexivity|discriminate].
+    + split; [reflexivity|discriminate].
+  - destruct strict; cbn [bind negb ropt].
+    + split; [reflexivity|]. intros e H. injection H as <-. reflexivity.
+    + split; [reflexivity|discriminate].
+Qed.
+
+Lemma trim_spec_canon tbl strict s seq :
+  trim_spec tbl strict s = Some seq -> canon_str s -> canon_str seq.
+Proof.
+  unfold trim_spec. intros H Hs.
+  destruct (zlen s mod 3 =? 0).
+  - injection H as H. subst seq. destruct (ends_with_stop (translate_spec tbl s)); [apply canon_firstn|]; exact Hs.
+  - destruct strict; [discriminate|]. injection H as H. subst seq. exact Hs.
+Qed.
+
+(** removing the last codon of an in-frame sequence removes the last residue of its translation *)
+Lemma translate_spec_trimmed tbl s :
+  zlen s mod 3 = 0 -> s <> [] ->
+  translate_spec tbl (firstn (length s - 3) s) = removelast (translate_spec tbl s).
+Proof.
+  intros Hm Hn. destruct (split_last3 s Hm Hn) as (u & a & b & c & E & Hu).
+  rewrite E at 2 3. rewrite translate_spec_snoc by exact Hu. rewrite removelast_last.
+  rewrite E, app_length. cbn [length]. replace (length u + 3 - 3)%nat with (length u + 0)%nat by lia.
+  rewrite firstn_app_2. cbn [firstn]. rewrite app_nil_r. reflexivity.
+Qed.
+
+Lemma stop_spec_unfold tbl trim inc ok s :
+  stop_spec tbl trim inc ok s =
+  match (if trim then trim_spec tbl (negb ok) s else Some s) with
+  | None => None
+  | Some seq => let p := translate_spec tbl seq in if negb inc && has_stop p then None else Some p
+  end.
+Proof.
+  unfold stop_spec, stop_spec_gen, trim_spec. cbv zeta.
+  destruct trim; cbn [andb]; [|reflexivity].
+  destruct (zlen s mod 3 =? 0) eqn:Em; cbn [negb andb].
+  - destruct (ends_with_stop (translate_spec tbl s)) eqn:Ee.
+    + assert (Hn : s <> []) by (intros ->; discriminate Ee).
+      rewrite translate_spec_trimmed by (assumption || lia). rewrite app_nil_r. reflexivity.
+    + reflexivity.
+  - destruct ok; reflexivity.
+Qed.
+
+(** new Sequence.get_translation *)
+Lemma seq_get_translation_new_spec_lemma id aa st s ok inc trim :
+  In (id, aa, st) new_codes -> canon_str s ->
+  ropt (seq_get_translation_new true aa s ok inc trim)
+  = stop_spec (ncbi_tbl id) (eff_trim_new inc trim) inc ok s.
+Proof.
+  intros Hin Hs. rewrite stop_spec_unfold. unfold eff_trim_new, seq_get_translation_new.
+  assert (Hfin : forall seq, canon_str seq ->
+     ropt (let pep := translate aa seq 0 false in
+           if negb inc && has_char ch_star pep then Err E_Alpha
+           else if negb ok && (has_char ch_gap pep || has_char ch_X pep) then Err E_Alpha else Ok pep)
+     = (let p := translate_spec (ncbi_tbl id) seq in if negb inc && has_stop p then None else Some p)).
+  { intros seq Hseq. cbv zeta.
+    rewrite (translate_plus_spec_lemma id aa st seq 0 Hin Hseq) by lia.
+    unfold frame_plus. cbn [Z.to_nat skipn].
+    destruct (translate_spec_clean id aa st seq Hin Hseq) as [-> ->].
+    change (has_char ch_star (translate_spec (ncbi_tbl id) seq)) with (has_stop (translate_spec (ncbi_tbl id) seq)).
+    rewrite andb_false_r. destruct (negb inc && has_stop (translate_spec (ncbi_tbl id) seq)); reflexivity. }
+  destruct trim.
+  - destruct (trim_stop_codon_canon New id aa st s (negb ok) Hin Hs) as [Ht _].
+    destruct (trim_stop_codon true New aa s (negb ok)) as [seq|e] eqn:E; cbn [ropt] in Ht; rewrite <- Ht; cbn [bind].
+    + apply Hfin. apply (trim_spec_canon (ncbi_tbl id) (negb ok) s seq); [symmetry; exact Ht|exact Hs].
+    + reflexivity.
+  - cbn [bind]. apply Hfin, Hs.
+Qed.
+
+(** the codon loop of old Sequence.get_translation on canonical codons *)
+Lemma old_codon_canon id aa st ok inc a b c :
+  In (id, aa, st) new_codes -> canonical a -> canonical b -> canonical c ->
+  old_codon aa ok inc [a; b; c] =
+  (let x := spec_lookup (ncbi_tbl id) [a; b; c] in if (x =? star) && negb inc then Err E_Alpha else Ok x).
+Proof.
+  intros Hin Ha Hb Hc. unfold old_codon.
+  assert (Hm : forallb (fun c0 => memZ c0 (ch_U :: old_bases)) [a; b; c] = true).
+  { rewrite (proj1 old_bases_lemma). rewrite forallb_forall. intros x Hx. apply memZ_In. right.
+    cbn in Hx. destruct Hx as [<-|[<-|[<-|[]]]]; assumption. }
+  rewrite Hm, (getitem_spec_lemma Old id aa st a b c Hin Ha Hb Hc). reflexivity.
+Qed.
+
+Lemma old_loop_canon id aa st ok inc l :
+  In (id, aa, st) new_codes ->
+  (forall w, In w l -> exists a b c, w = [a; b; c] /\ canonical a /\ canonical b /\ canonical c) ->
+  ropt (mapM (old_codon aa ok inc) l)
+  = (let p := map (spec_lookup (ncbi_tbl id)) l in if negb inc && has_stop p then None else Some p).
+Proof.
+  intros Hin. induction l as [|w r IH]; intros Hl; cbv zeta.
+  - cbn. rewrite andb_false_r. reflexivity.
+  - destruct (Hl w (or_introl eq_refl)) as (a & b & c & -> & Ha & Hb & Hc).
+    cbn [mapM map]. rewrite (old_codon_canon id aa st ok inc a b c Hin Ha Hb Hc). cbv zeta.
+    specialize (IH (fun w Hw => Hl w (or_intror Hw))). cbv zeta in IH.
+    unfold has_stop in *. cbn [existsb]. rewrite (Z.eqb_sym star).
+    destruct (spec_lookup (ncbi_tbl id) [a; b; c] =? star) eqn:Ex; destruct inc; cbn [negb andb orb bind ropt] in *.
+    + destruct (mapM (old_codon aa ok true) r); cbn [bind ropt] in *; [injection IH as ->; reflexivity|discriminate].
+    + reflexivity.
+    + destruct (mapM (old_codon aa ok true) r); cbn [bind ropt] in *; [injection IH as ->; reflexivity|discriminate].
+    + destruct (existsb (Z.eqb star) (map (spec_lookup (ncbi_tbl id)) r));
+        destruct (mapM (old_codon aa ok false) r); cbn [bind ropt] in *; try discriminate; try reflexivity.
+      injection IH as ->. reflexivity.
+Qed.
+
+(** old Sequence.get_translation *)
+Lemma seq_get_translation_old_spec_lemma id aa st s ok inc trim :
+  In (id, aa, st) new_codes -> canon_str s ->
+  ropt (seq_get_translation_old true aa s ok inc trim)
+  = stop_spec (ncbi_tbl id) (eff_trim_old inc trim) inc ok s.
+Proof.
+  intros Hin Hs. rewrite stop_spec_unfold. unfold eff_trim_old, seq_get_translation_old.
+  assert (Hfin : forall seq, canon_str seq ->
+     ropt (mapM (old_codon aa ok inc) (chunks3 seq))
+     = (let p := translate_spec (ncbi_tbl id) seq in if negb inc && has_stop p then None else Some p)).
+  { intros seq Hseq. unfold translate_spec. rewrite codons_chunks3.
+    apply (old_loop_canon id aa st); [exact Hin|]. intros w Hw. apply (canon_chunk seq w Hseq Hw). }
+  destruct inc, trim; cbn [orb negb andb bind]; try (apply Hfin, Hs).
+  destruct (trim_stop_codon_canon Old id aa st s (negb ok) Hin Hs) as [Ht _].
+  destruct (trim_stop_codon true Old aa s (negb ok)) as [seq|e] eqn:E; cbn [ropt] in Ht; rewrite <- Ht; cbn [bind].
+  - apply Hfin. apply (trim_spec_canon (ncbi_tbl id) (negb ok) s seq); [symmetry; exact Ht|exact Hs].
+  - reflexivity.
+Qed.
+
+(** before repair C12-2 the empty sequence made has_terminal_stop raise (KeyError) *)
+Lemma empty_sequence_pinned_refuted_lemma :
+  exists aa, trim_stop_codon false New aa [] false = Err E_Key /\ trim_stop_codon false Old aa [] false = Err E_Key
+             /\ trim_stop_codon true New aa [] false = Ok [].
+Proof. exists []. vm_compute. repeat split. Qed.
+
+(** before repair C12-3 an alignment ignored trim_stop=False: it returned a trimmed translation
+    where the sequence-level call on the same row rejects the stop codon *)
+Definition refute_row : str := [65; 65; 65; 84; 65; 65].   (* AAATAA *)
+Lemma alignment_trim_pinned_refuted_lemma :
+  exists aa rows row,
+    In row rows /\
+    aln_get_translation_old true false aa rows false false false = Ok [[75]] /\
+    seq_get_translation_old true aa row false false false = Err E_Alpha /\
+    aln_get_translation_old true true aa rows false false false = Err E_Alpha.
+Proof.
+  exists (snd (fst refute_code)), [refute_row], refute_row.
+  split; [left; reflexivity|]. vm_compute. repeat split.
+Qed.
+
+Lemma codon_order_lemma : old_bases = bases /\ canon_new = bases /\ ncbi_header_words = product3 bases.
+Proof. exact (conj (proj1 old_bases_lemma) (conj (proj2 old_bases_lemma) ncbi_header_lemma)). Qed.
+
+(* ------------------------------------------------------------------ any valid DNA string, plus strand *)
+
+(** every symbol is in the most degenerate gapped DNA alphabet (bases, IUPAC ambiguity letters, "-", "?") *)
+Definition valid_dna (s : str) : Prop := Forall (fun c => In c dna_dga_new) s.
+Definition general_lookup (tbl : list Z) (w : list Z) : Z :=
+  if forallb canonicalb w then spec_lookup tbl w else expected_incomplete w.
+
+Lemma canonicalb_complete c : canonicalb c = true <-> canonical c.
+Proof.
+  split; [apply canonicalb_sound|]. unfold canonical, canonicalb. intros H.
+  apply existsb_exists. exists c. split; [exact H|apply Z.eqb_refl].
+Qed.
+
+Lemma translate_plus_general_lemma id aa st s start :
+  In (id, aa, st) new_codes -> valid_dna s -> 0 <= start ->
+  translate aa s start false
+  = map (general_lookup (ncbi_tbl id)) (codons (skipn (Z.to_nat start) s)).
+Proof.
+  intros Hin Hs H0. rewrite translate_false_eq, translate_pinned_unfold by assumption. cbv zeta.
+  rewrite convert_plus, chunks3_trunc3, codons_chunks3.
+  apply map_ext_in. intros w Hw.
+  destruct (chunks3_In w _ Hw) as (a & b & c & -> & Ha & Hb & Hc).
+  assert (Hv : forall x, In x (skipn (Z.to_nat start) s) -> In x dna_dga_new).
+  { intros x Hx. unfold valid_dna in Hs. rewrite Forall_forall in Hs. apply Hs.
+    rewrite <- (firstn_skipn (Z.to_nat start) s). apply in_or_app. right. exact Hx. }
+  unfold general_lookup. destruct (forallb canonicalb [a; b; c]) eqn:E.
+  - cbn [forallb] in E. rewrite andb_true_r in E.
+    apply andb_prop in E. destruct E as [Ea E]. apply andb_prop in E. destruct E as [Eb Ec].
+    apply (codon_ok_split id aa), (codon_facts id aa st); auto using canonicalb_sound.
+  - apply (incomplete_codon_lemma id aa st a b c); auto.
+Qed.
+
+(* ------------------------------------------------------------------ any valid DNA string, minus strand *)
+
+Section RCF.
+Variable f : Z -> Z.
+Definition rcf (s : list Z) : list Z := rev (map f s).
+
+Lemma rcf_app u v : rcf (u ++ v) = rcf v ++ rcf u.
+Proof. unfold rcf. rewrite map_app, rev_app_distr. reflexivity. Qed.
+
+Lemma zlen_rcf u : zlen (rcf u) = zlen u.
+Proof. unfold rcf. rewrite zlen_rev, zlen_map. reflexivity. Qed.
+
+Lemma chunks3_rcf u :
+  zlen u mod 3 = 0 -> chunks3 (rcf u) = rev (map rcf (chunks3 u)).
+Proof.
+  induction u using list_ind3; intros H.
+  - reflexivity.
+  - exfalso. rewrite zlen_cons, zlen_nil in H. discriminate H.
+  - exfalso. rewrite !zlen_cons, zlen_nil in H. discriminate H.
+  - change (a :: b :: c :: u) with ([a; b; c] ++ u). rewrite rcf_app.
+    assert (Hu : zlen u mod 3 = 0) by (rewrite !zlen_cons in H; lia).
+    rewrite chunks3_app by (rewrite zlen_rcf; exact Hu).
+    rewrite IHu by exact Hu. reflexivity.
+Qed.
+
+(** the window the repaired minus strand reads: drop [k] symbols of the reverse complement, keep
+    whole codons = reverse complement of (s without its last k symbols, cut to whole codons from the left) *)
+Lemma rcf_window s k :
+  let dna1 := firstn (length s - k) s in
+  let dna2 := skipn (Z.to_nat (zlen dna1 mod 3)) dna1 in
+  zlen dna2 mod 3 = 0 /\ chunks3 (skipn k (rcf s)) = chunks3 (rcf dna2).
+Proof.
+  cbv zeta. set (dna1 := firstn (length s - k) s). set (d := zlen dna1 mod 3).
+  set (dna2 := skipn (Z.to_nat d) dna1).
+  assert (Hd : 0 <= d < 3) by (unfold d; lia).
+  assert (Hdle : (Z.to_nat d <= length dna1)%nat) by (unfold d, zlen in *; lia).
+  assert (Hm2 : zlen dna2 mod 3 = 0).
+  { unfold dna2, zlen. rewrite skipn_length. unfold d, zlen in *. lia. }
+  split; [exact Hm2|].
+  assert (E3 : skipn k (rcf s) = rcf dna1).
+  { assert (Es : rcf s = rcf (skipn (length s - k) s) ++ rcf dna1).
+    { unfold dna1. rewrite <- rcf_app, firstn_skipn. reflexivity. }
+    rewrite Es.
+    destruct (le_lt_dec k (length s)) as [Hk|Hk].
+    - apply skipn_app_exact. apply Nat2Z.inj. fold (zlen (rcf (skipn (length s - k) s))).
+      rewrite zlen_rcf. unfold zlen. rewrite skipn_length. lia.
+    - unfold dna1. replace (length s - k)%nat with 0%nat by lia. simpl firstn. simpl skipn.
+      rewrite app_nil_r. apply skipn_all2.
+      pose proof (zlen_rcf s) as E. unfold zlen in E. lia. }
+  rewrite E3.
+  assert (E4 : rcf dna1 = rcf dna2 ++ rcf (firstn (Z.to_nat d) dna1)).
+  { unfold dna2. rewrite <- rcf_app, firstn_skipn. reflexivity. }
+  rewrite E4.
+  rewrite chunks3_app_short; [reflexivity|rewrite zlen_rcf; exact Hm2|].
+  rewrite zlen_rcf. unfold zlen. rewrite firstn_length_le by exact Hdle. lia.
+Qed.
+End RCF.
+
+Lemma rc_pure_rcf tbl s : rc_pure tbl s = rcf (comp_char tbl) s.
+Proof. reflexivity. Qed.
+
+(** the class of a codon (all bases / bases and gaps / anything else) is the class of its reverse complement *)
+Definition rc_class_check : bool :=
+  forallb (fun w => (expected_incomplete (rc_pure dna_comp_new w) =? expected_incomplete w)
+                    && forallb (fun c => memZ c dna_dga_new) (rc_pure dna_comp_new w)) dga_words.
+Lemma rc_class_checked : rc_class_check = true.
+Proof. vm_compute. reflexivity. Qed.
+
+Lemma minus_aa_general id aa st a b c :
+  In (id, aa, st) new_codes -> In a dna_dga_new -> In b dna_dga_new -> In c dna_dga_new ->
+  minus_aa aa [a; b; c] = general_lookup (ncbi_tbl id) (rc_pure dna_comp_new [a; b; c]).
+Proof.
+  intros Hin Ha Hb Hc.
+  pose proof rc_class_checked as Hk. unfold rc_class_check in Hk. rewrite forallb_forall in Hk.
+  specialize (Hk [a; b; c] (In_product3 _ a b c Ha Hb Hc)). apply andb_prop in Hk. destruct Hk as [Hk _].
+  apply Z.eqb_eq in Hk.
+  unfold general_lookup. destruct (forallb canonicalb [a; b; c]) eqn:E.
+  - cbn [forallb] in E. rewrite andb_true_r in E.
+    apply andb_prop in E. destruct E as [Ea E]. apply andb_prop in E. destruct E as [Eb Ec].
+    apply canonicalb_sound in Ea, Eb, Ec.
+    assert (Hw : canon_str [a; b; c]).
+    { unfold canon_str. constructor; [exact Ea|]. constructor; [exact Eb|]. constructor; [exact Ec|]. constructor. }
+    change dna_comp_new with (comp_table New DNA). rewrite (rc_pure_canon New [a; b; c] Hw).
+    assert (Hrc : forallb canonicalb (rc_spec [a; b; c]) = true).
+    { rewrite forallb_forall. intros x Hx. apply canonicalb_complete.
+      pose proof (canon_rc _ Hw) as Hr. unfold canon_str in Hr. rewrite Forall_forall in Hr. apply Hr, Hx. }
+    rewrite Hrc.
+    apply (codon_ok_split id aa [a; b; c]), (codon_facts id aa st); assumption.
+  - assert (E' : forallb canonicalb (rc_pure dna_comp_new [a; b; c]) = false).
+    { destruct (forallb canonicalb (rc_pure dna_comp_new [a; b; c])) eqn:E2; [|reflexivity].
+      unfold expected_incomplete in Hk. rewrite E, E2 in Hk.
+      destruct (forallb (fun c0 => canonicalb c0 || (c0 =? ch_gap)) [a; b; c]); unfold ch_gap, ch_X in Hk; lia. }
+    rewrite E', Hk. apply (incomplete_codon_lemma id aa st a b c); auto.
+Qed.
+
+Lemma translate_minus_general_lemma id aa st s start :
+  In (id, aa, st) new_codes -> valid_dna s -> 0 <= start ->
+  translate aa s start true
+  = map (general_lookup (ncbi_tbl id)) (codons (skipn (Z.to_nat start) (rc_pure dna_comp_new s))).
+Proof.
+  intros Hin Hs H0. rewrite translate_true, right_cut by exact H0.
+  rewrite ltrunc3_skipn, convert_minus, codons_chunks3, rc_pure_rcf.
+  destruct (rcf_window (comp_char dna_comp_new) s (Z.to_nat start)) as [Hm2 Hw]. cbv zeta in Hm2, Hw.
+  rewrite Hw, chunks3_rcf by exact Hm2.
+  rewrite <- !map_rev, map_map. apply map_ext_in. intros w Hin_w. apply in_rev in Hin_w.
+  destruct (chunks3_In w _ Hin_w) as (a & b & c & -> & Ha & Hb & Hc).
+  assert (Hv : forall x, In x (skipn (Z.to_nat (zlen (firstn (length s - Z.to_nat start) s) mod 3))
+                                   (firstn (length s - Z.to_nat start) s)) -> In x dna_dga_new).
+  { intros x Hx. unfold valid_dna in Hs. rewrite Forall_forall in Hs. apply Hs.
+    set (l1 := firstn (length s - Z.to_nat start) s) in *.
+    assert (Hx1 : In x l1).
+    { rewrite <- (firstn_skipn (Z.to_nat (zlen l1 mod 3)) l1). apply in_or_app. right. exact Hx. }
+    unfold l1 in Hx1. rewrite <- (firstn_skipn (length s - Z.to_nat start) s). apply in_or_app. left. exact Hx1. }
+  rewrite <- rc_pure_rcf. apply (minus_aa_general id aa st a b c); auto.
+Qed.
+
+(* ------------------------------------------------------------------ the hypotheses are satisfiable *)
+
+Example hypotheses_instance :
+  In refute_code new_codes /\ In refute_code old_codes /\
+  canon_str refute_seq /\ valid_dna [65; 78; 45; 63; 82; 84] /\
+  In (82, [65; 71]) (iupac_of DNA) /\ In (89, [67; 85]) (iupac_of RNA) /\ In [65; 71] (base_sets DNA).
+Proof.
+  destruct refute_checks as (H1 & H2 & _).
+  assert (Hn : In refute_code new_codes) by (apply hd_In, H1).
+  split; [exact Hn|]. split; [rewrite old_eq_new_lemma; exact Hn|].
+  split; [apply canon_strb_sound, H2|].
+  split; [unfold valid_dna; rewrite Forall_forall; intros x Hx; apply memZ_In;
+          revert x Hx; apply Forall_forall; repeat (constructor; [reflexivity|]); constructor|].
+  split; [apply memZ_In || (cbn; tauto)|]. split; cbn; tauto.
+Qed.
